@@ -115,7 +115,9 @@ type cliScriptConn struct {
 	// closeMode: what Close() does. 0: closes, returns nil. 1: closes (ReadFrom
 	// and WriteTo fail from then on) but reports an error, like close(2)
 	// returning EIO. 2: reports an error and the conn stays usable (ReadFrom
-	// keeps blocking) until forceClose.
+	// keeps blocking) until forceClose. 3: the socket is dead at once (reads and
+	// writes fail) but Close itself takes cliSlowClose of virtual time to return
+	// (a conn whose Close does work: oracle c11's slow-close scenarios).
 	closeMode int
 	// hooks: replies handed to the receive loop from INSIDE the WriteTo made at
 	// virtual instant t (a peer that answers before WriteTo returns): WriteTo
@@ -215,10 +217,17 @@ func (c *cliScriptConn) Close() error {
 		return errCliConnClose
 	case 2:
 		return errCliConnClose
+	case 3:
+		c.forceClose()
+		time.Sleep(time.Duration(cliSlowClose))
+		return nil
 	}
 	c.forceClose()
 	return nil
 }
+
+// cliSlowClose: virtual nanoseconds a closeMode-3 conn spends inside Close
+const cliSlowClose = 1000
 func (c *cliScriptConn) forceClose()                      { c.once.Do(func() { close(c.closed) }) }
 func (c *cliScriptConn) LocalAddr() net.Addr              { return &net.UDPAddr{} }
 func (c *cliScriptConn) SetDeadline(time.Time) error      { return nil }
